@@ -29,7 +29,7 @@ def covers : List (List Nat) → List Nat → Bool
 
 /-- one signature row `(op_count, mode, implicit_op_count, operand signatures)` against the forms of its instruction -/
 def rowSound (forms : List DbForm) (row : Nat × Nat × Nat × List (Nat × Nat)) : Bool :=
-  row.2.2.2.all (fun r => r.1 &&& fOpMask != 0) &&
+  row.2.2.2.length == row.1 && row.2.2.2.all (fun r => r.1 &&& fOpMask != 0) &&
   [1, 2].all fun mb => row.2.1 &&& mb == 0 ||
     covers ((forms.filter fun f => f.1 &&& mb != 0 && f.2.length == row.1).map (·.2)) (row.2.2.2.map fun r => r.1 &&& fOpMask)
 
